@@ -96,9 +96,10 @@ def run_shard(spec):
                 items.append((f'{tag}/literal{lit}', prog, [['0']], lambda a: True))
         for tag, prog in faultgrid.division_programs():
             items.append((tag, prog, [[str(a), str(b)] for a, b in faultgrid.division_values(bits)], lambda a: abs(int(a[1])) <= 2))
-        for lit in (0, 1, -1, 2, 256):
+        # literal divisors; those beyond the word are the word they wrap to on the target: 2^bits, -2^bits and 3*2^bits ARE zero there
+        for lit in (0, 1, -1, 2, 256, 1 << bits, -(1 << bits), 3 << bits, (1 << bits) + 1, (1 << bits) - 1):
             for tag, prog in faultgrid.division_programs(div_lit=lit):
-                items.append((f'{tag}/literal{lit}', prog, [[str(a), '1'] for a in (0, 7, -7, 300, -(1 << (bits - 1)))], lambda a, lit=lit: lit == 0))
+                items.append((f'{tag}/literal{lit}', prog, [[str(a), '1'] for a in (0, 7, -7, 300, -(1 << (bits - 1)))], lambda a, lit=lit: lit % (1 << bits) == 0))
         for tag, prog in faultgrid.order_programs():
             items.append((tag, prog, [[str(i), str(d)] for i in (-1, 0, 2, 3) for d in (0, 1, 3)], lambda a: True))
         for tag, prog in faultgrid.vla_programs():
